@@ -80,8 +80,11 @@ def parseHdr (s : String) : Option Hdr :=
     pure { ce := ← Driver.unhex ce, cl := cl, varyAE := v == "1", etag := ← parseETag e }
   | _ => none
 
+/-- `c` (io.Copy into w) and `s` (io.WriteString) output the next piece of the body exactly
+like `w` (Write): that is what the property demands of any wrapper fast path, so the model has
+one op for the three and the theorems quantify over all of them. -/
 def parseOp (s : String) : Option Op :=
-  if s = "w" then some .write
+  if s = "w" || s = "c" || s = "s" then some .write
   else if s = "f" then some .flush
   else if s.startsWith "h" then ((s.drop 1).toString.toNat?).map Op.hdr
   else none
@@ -230,7 +233,34 @@ def rangeJudge (f : List String) (out : String) : String :=
     | _, _, _ => "bad:unparsable:" ++ out
   | _, _ => "bad:unparsable:" ++ out
 
+/-- c18.live: status, Content-Encoding and body term of both executions over a real connection -/
+def showLive (o : Obs) : String :=
+  let ce := if o.ce.isEmpty then "-" else Driver.hex o.ce
+  s!"{o.status} {ce} {showTerm o.body}"
+
+def liveModel (f : List String) : String :=
+  match parseWrap f with
+  | none => "bad-case"
+  | some c => showLive (observe (gzipRun c.blocks c.path c.ae c.inner)) ++ "\t" ++ showLive (observe (plainRun c.inner))
+
+def parseLive (s : String) : Option Obs :=
+  match s.splitOn " " with
+  | [st, ce, t] => do
+    let ce ← if ce = "-" then pure [] else Driver.unhex ce
+    pure { status := ← st.toNat?, ce := ce, cl := .absent, varyAE := false, etag := .none, body := ← parseTerm t }
+  | _ => none
+
+def liveJudge (f : List String) (out : String) : String :=
+  match parseWrap f, out.splitOn "\t" with
+  | some c, [g, p] =>
+    match parseLive g, parseLive p with
+    | some g, some p => verdict c.ae g p
+    | _, _ => if (out.splitOn "X-").length > 1 then "bad:undecodable:the body is not a complete stream of the coding it starts with, or the connection broke"
+              else "bad:unparsable:" ++ out
+  | _, _ => "bad:unparsable:" ++ out
+
 def streams : List Driver.Stream := [
+  { name := "c18.live", model := liveModel, judge := liveJudge },
   { name := "c18.range", model := rangeModel, judge := rangeJudge },
   { name := "c18.wrap", model := wrapModel, judge := wrapJudge },
   { name := "c18.static", model := staticModel, judge := staticJudge }
